@@ -50,6 +50,16 @@ def declareOfJson (self : Flav) (j : Json) : Except String Cmd := do
   let noaction ← jboolD j "noaction"
   pure (Cmd.declare ⟨self, name, ver, dir, stack, tableNone, tag, force, noaction⟩)
 
+def setupOfJson (j : Json) : Except String (Option (Ver × Flav × Nat)) :=
+  match j.getObjVal? "setup" with
+  | .ok Json.null => pure none
+  | .ok v => do
+    let a ← v.getArr?
+    if h : a.size = 3 then
+      pure (some (Str.ofString (← a[0].getStr?), Str.ofString (← a[1].getStr?), ← a[2].getNat?))
+    else throw "setup: expected [version, flavor, stack]"
+  | .error _ => pure none
+
 def undeclareOfJson (self : Flav) (j : Json) : Except String Cmd := do
   let name ← jstr j "name"
   let ver ← jstrOpt j "version"
@@ -57,7 +67,9 @@ def undeclareOfJson (self : Flav) (j : Json) : Except String Cmd := do
   let tag ← jstrOpt j "tag"
   let vat ← jboolD j "vat"
   let noaction ← jboolD j "noaction"
-  pure (Cmd.undeclare ⟨self, name, ver, stack, tag, vat, noaction⟩)
+  let force ← jboolD j "force"
+  let setup ← setupOfJson j
+  pure (Cmd.undeclare ⟨self, name, ver, stack, tag, vat, noaction, force, setup⟩)
 
 def assignOfJson (self : Flav) (j : Json) : Except String Cmd := do
   let tag ← jstr j "tag"
@@ -79,7 +91,9 @@ def removeOfJson (self : Flav) (j : Json) : Except String Cmd := do
   let ver ← jstr j "version"
   let noaction ← jboolD j "noaction"
   let recursive ← jboolD j "recursive"
-  pure (Cmd.remove self name ver recursive noaction)
+  let force ← jboolD j "force"
+  let setup ← setupOfJson j
+  pure (Cmd.remove self name ver recursive noaction force setup)
 
 def cmdOfJson (j : Json) : Except String WCmd := do
   let op ← (← j.getObjVal? "op").getStr?
